@@ -249,6 +249,10 @@ def explore(run, max_paths=4096, min_branch=1e-9, min_path=0.0, default_last=Fal
             else:
                 cum *= e[1][e[2]]
         for i in range(first, len(rng.log)):
+            if rng.log[i][0] not in ("bulk", "random"):
+                # alternatives lighter than min_branch are left unexplored: their mass is accounted for, not lost
+                kind_, w_, d_, extra_ = rng.log[i]
+                res.cut_mass += sum(cums[i] * w_[j] for j in extra_ if j != d_ and 0 < w_[j] <= min_branch)
             for j in rng.siblings(i, min_branch):
                 if min_path and rng.log[i][0] != "random" and cums[i] * rng.log[i][1][j] < min_path:
                     res.cut_mass += cums[i] * rng.log[i][1][j]
